@@ -257,6 +257,19 @@ pub fn gen_keypath(r: &mut Rng, v: &Value) -> Vec<jsonb::keypath::KeyPath<'stati
 
 /// the request stream of a property: deep documents and the small-scope exhaustive block first, then
 /// the generated stream (`gen_sub`, which other properties' streams also draw from)
+/// one double per binade of the whole exponent range (2^e, and 1.5 * 2^e where it exists), both signs for a subset:
+/// the exact integer/float comparison shifts by the exponent, so every binade is a separate case
+pub fn binade_floats() -> Vec<f64> {
+    let mut v = vec![];
+    for e in -1074i32..=1023 {
+        let x = if e >= -1022 { f64::from_bits(((e + 1023) as u64) << 52) } else { f64::from_bits(1u64 << (e + 1074)) };
+        v.push(x);
+        if e >= -1073 { v.push(x * 1.5); }
+        if e % 3 == 0 || (-70..=70).contains(&e) { v.push(-x); }
+    }
+    v
+}
+
 pub fn gen(prop: &str, tier: &str, seed: u64) -> Out {
     let mut r = Rng::new(seed ^ 0x5ca1ab1e ^ prop.bytes().fold(0u64, |a, b| a.wrapping_mul(131).wrapping_add(b as u64)));
     let mut o = Out::new();
@@ -289,6 +302,38 @@ pub fn gen_sub(prop: &str, tier: &str, seed: u64) -> Out {
                 o.push(format!("rtdec {}", t));
                 o.push(format!("rtenc {}", t));
                 o.push(format!("dec {}", hex(&v.to_vec())));
+            }
+            // wide containers: counts around 2^8, 2^15, 2^16 and beyond (an entry word per element, two per member;
+            // any bound or width smaller than the header's 29-bit count shows here), at the top and nested.  They go
+            // through the round-trip ORACLES (real encoder and decoder against the specification value) only: the
+            // implementation-level model decoder indexes a list and is quadratic in the count, as is the tree
+            // parser of the driver on objects, so objects stay moderate
+            {
+                let mut wide: Vec<Value<'static>> = vec![];
+                for n in [255usize, 256, 257, 32767, 32768, 32769, 65535, 65536, 65537, 70001] {
+                    wide.push(Value::Array(vec![Value::Null; n]));
+                    if n > 300 && n % 2 == 1 {
+                        wide.push(Value::Array((0..n).map(|i| match i % 4 { 0 => Value::Number(Number::UInt64(i as u64)), 1 => Value::Bool(i % 8 == 1), 2 => Value::String(format!("s{}", i % 10).into()), _ => Value::Null }).collect()));
+                    }
+                }
+                let mut m = std::collections::BTreeMap::new();
+                m.insert("w".to_string(), Value::Array(vec![Value::Bool(true); 65537]));
+                m.insert("z".to_string(), Value::Null);
+                wide.push(Value::Array(vec![Value::Object(m), Value::Number(Number::UInt64(7))]));
+                for v in wide {
+                    let t = show_value(&v);
+                    o.push(format!("rtdec {}", t));
+                    o.push(format!("rtenc {}", t));
+                    o.stat("doc:wide");
+                }
+                for n in [255usize, 257, 2049] {
+                    let mut m = std::collections::BTreeMap::new();
+                    for i in 0..n { m.insert(format!("k{:05}", i), if i % 3 == 0 { Value::Null } else { Value::Number(Number::Int64(-(i as i64))) }); }
+                    let v = Value::Object(m);
+                    o.push(format!("rtdec {}", show_value(&v)));
+                    o.push(format!("dec {}", hex(&v.to_vec())));
+                    o.stat("doc:wide");
+                }
             }
         }
         "C18" => {
@@ -334,6 +379,14 @@ pub fn gen_sub(prop: &str, tier: &str, seed: u64) -> Out {
                     o.push(format!("numcmp {} {}", show_num(a), show_num(b)));
                     o.push(format!("spec:numcmp {} {}", show_num(a), show_num(b)));
                 } }
+            }
+            // every binade of the double range against a few integers, both orders (the exact integer/float
+            // comparison shifts by the exponent: each binade is a case of its own)
+            for f in binade_floats() {
+                for i in [Number::Int64(0), Number::Int64(1), Number::Int64(-1), Number::UInt64(u64::MAX), Number::Int64(i64::MIN)] {
+                    o.push(format!("numcmp {} {}", show_num(&i), show_num(&Number::Float64(f))));
+                    o.push(format!("numcmp {} {}", show_num(&Number::Float64(f)), show_num(&i)));
+                }
             }
             // the views of a stored number through the public casts: exact or absent, never another value
             for n in all_numbers().iter().chain([Number::Float64(9223372036854775808.0), Number::Float64(-9223372036854775808.0), Number::Float64(18446744073709551616.0), Number::Float64(9223372036854774784.0), Number::Float64(2.0), Number::Float64(-3.0), Number::Float64(0.5), Number::UInt64(9223372036854775808), Number::UInt64(9223372036854775809)].iter()) {
@@ -724,6 +777,21 @@ pub fn gen_sub(prop: &str, tier: &str, seed: u64) -> Out {
                         _ => { o.push(format!("keyorder {} {}", ha, hb)); }
                     }
                 } }
+            }
+            // every binade of the double range against the integers 0, 1, -1 (C04: compare against the specification;
+            // C14: compare against the order of the keys)
+            if prop != "C12" {
+                for f in binade_floats() {
+                    let hf = hex(&Value::Number(Number::Float64(f)).to_vec());
+                    for i in [0i64, 1, -1] {
+                        let hi = hex(&Value::Number(Number::Int64(i)).to_vec());
+                        if prop == "C04" {
+                            o.push(format!("spec:cmp {} {}", hi, hf)); o.push(format!("cmp {} {}", hi, hf)); o.push(format!("cmp {} {}", hf, hi));
+                        } else {
+                            o.push(format!("keyorder {} {}", hi, hf)); o.push(format!("keyorder {} {}", hf, hi));
+                        }
+                    }
+                }
             }
             // object members holding arrays against the same object with one element in the member's place,
             // in every representation (the bare-scalar rule must not fire below the top level)
@@ -1332,6 +1400,14 @@ pub fn gen_sub(prop: &str, tier: &str, seed: u64) -> Out {
                         o.stat(if *n >= 10000 { "deep:>=10000" } else { "deep:<10000" });
                     }
                 }
+            }
+            // every binade of the double range against extreme and small integers: no shift may overflow
+            for f in binade_floats() {
+                for i in [Number::Int64(0), Number::Int64(1), Number::UInt64(u64::MAX), Number::Int64(i64::MIN)] {
+                    o.push(format!("numcmp {} {}", show_num(&i), show_num(&Number::Float64(f))));
+                }
+                let (hf, hi) = (hex(&Value::Array(vec![Value::Number(Number::Float64(f))]).to_vec()), hex(&Value::Array(vec![Value::Number(Number::Int64(1))]).to_vec()));
+                o.push(format!("cmp {} {}", hi, hf));
             }
             // extreme integer arguments on ordinary documents
             let mut both = |o: &mut Out, l: String| { o.push(format!("spec:{}", l)); o.push(l); };
